@@ -109,6 +109,31 @@ Record fobs := {
   o_conns : Z; o_hs_ok : bool; o_negotiated : bytes; o_peer_c2s : bytes; o_peer_s2c : bytes;
   o_err : Z; o_data : kdata }.
 
+(* what the script puts on the wire *)
+Definition sent_bytes (sc : script) : bytes := firstn (sc_cut sc) (wire (sc_recs sc) ++ sc_tail sc).
+
+(* for scripts that are not strict (encodings no conforming server produces, raw bytes) the
+   property text does not say how the bytes divide into records, but it still says where the
+   client's data come from: the pool is "the cookies issued", the target "the server and port
+   named in the exchange" or the default - so every cookie, a server other than the key-exchange
+   host, and a port other than the standard one must occur in the bytes this peer sent on this
+   connection (nothing invented, nothing left over from an earlier exchange) *)
+Fixpoint prefix_b (x s : bytes) : bool :=
+  match x, s with
+  | [], _ => true
+  | a :: x', b :: s' => (a =? b) && prefix_b x' s'
+  | _ :: _, [] => false
+  end.
+
+Fixpoint infix_b (x s : bytes) : bool :=
+  prefix_b x s || match s with [] => false | _ :: s' => infix_b x s' end.
+
+Fixpoint port_in (v : Z) (s : bytes) : bool :=
+  match s with
+  | a :: s' => match s' with b :: _ => (a * 256 + b =? v) || port_in v s' | [] => false end
+  | [] => false
+  end.
+
 Fixpoint bytes_list_eqb (a b : list bytes) : bool :=
   match a, b with
   | [], [] => true
@@ -166,7 +191,10 @@ Definition fetch_ok (scion : bool) (st : ostate) (sc : script) (o : fobs) : opti
               bytes_list_eqb (k_cookies d) (a_cookies a)
               && bytes_eqb (k_server d) (opt_bytes (a_server a) (sc_host sc))
               && (k_port d =? opt_z (a_port a) (std_ntp_port scion))
-            else true)
+            else
+              forallb (fun c => infix_b c (sent_bytes sc)) (k_cookies d)
+              && (bytes_eqb (k_server d) (sc_host sc) || infix_b (k_server d) (sent_bytes sc))
+              && ((k_port d =? std_ntp_port scion) || port_in (k_port d) (sent_bytes sc)))
       else true in
     if attempted && iff_ok && data_ok then
       if success then
